@@ -177,11 +177,15 @@ pub fn run(ctx: &Ctx) {
     ctx.assume("a literal is always rendered for the convention it is evaluated under; a comma glued to the day of 'Mon d, y' is punctuation, not part of the literal, under every convention");
     ctx.run_table(&Separators, "regressions", regressions(), false);
     ctx.run_generated(&Separators, ctx.tier.pick(40_000, 600_000), case_strategy);
+    // conversion codes of user-defined families with fractional constants: the same conversions under every convention,
+    // whether the family was registered before or after the separators were set
+    ctx.run_generated(&crate::custom_units::CustomUnits, ctx.tier.pick(300, 5_000), || crate::custom_units::case_strategy("C08"));
 }
 
 pub fn replay(w: &mut Worker, sub: &str, case: &serde_json::Value) -> Option<Verdict> {
     match sub {
         "separators" => crate::engine::replay_case(&Separators, w, case),
+        "custom-units" => crate::custom_units::replay(w, case),
         _ => None,
     }
 }
